@@ -285,11 +285,16 @@ def fieldKey (a : E) (f : String) : Option String :=
   | .var n => some (n ++ "." ++ f)
   | _ => none
 
+/-- compile-time getters whose result is supplied by the dispatch model through the store -/
+def isCompileTimeGetter (m : String) : Bool := m == "Index" || m == "AsUint64" || m == "TryAsPred"
+
 def methKey (a : E) (m : String) : Option String :=
-  match a with
-  | .sel (.var o) fld => some (o ++ "." ++ fld ++ "." ++ m ++ "()")
-  | .var o => some (o ++ "." ++ m ++ "()")
-  | _ => none
+  if isCompileTimeGetter m then
+    match a with
+    | .sel (.var o) fld => some (o ++ "." ++ fld ++ "." ++ m ++ "()")
+    | .var o => some (o ++ "." ++ m ++ "()")
+    | _ => none
+  else none
 
 def evalE (F : FloatOps) (ρ : Store) : E → R
   | .var n => match lookup ρ n with
